@@ -31,9 +31,10 @@ Namings == 1..5
 
 (* variant -> (pool of contents, number of import roots) *)
 (* 5..8: the pools with a multi-body / disjunctive aggregating predicate *)
+(* 9, 10: the pool with functor applications with a constant argument *)
 PoolOf(v) == CASE v \in {1, 3} -> 1 [] v \in {2, 4} -> 2
-               [] v \in {5, 7} -> 3 [] v \in {6, 8} -> 4
-RootsOf(v) == IF v \in {1, 4, 5, 8} THEN 1 ELSE 2
+               [] v \in {5, 7} -> 3 [] v \in {6, 8} -> 4 [] v \in {9, 10} -> 5
+RootsOf(v) == IF v \in {1, 4, 5, 8, 9} THEN 1 ELSE 2
 Variants == 1..4
 AggVariants == 5..8
 
@@ -67,7 +68,7 @@ ImpsOf(n, a, ord, style) ==
 
 Mk(n, a, ord, style, nam, v) ==
   [files |-> FilesOf(n, nam, RootsOf(v)), imps |-> ImpsOf(n, a, ord, style),
-   pool |-> PoolOf(v), nroots |-> RootsOf(v)]
+   pool |-> PoolOf(v), nroots |-> RootsOf(v), hname |-> "Helper"]
 
 (* the main program imports its first file a second time, other predicate *)
 Other(i) == IF i.pred = "Val"
@@ -84,7 +85,7 @@ Inject(g, kind, f, j) ==
     [] kind = "unused" -> [g EXCEPT !.imps[f][j].used = FALSE]
     [] kind = "redefinition" ->
          IF g.imps[f][j].alias = ""
-         THEN [g EXCEPT !.imps[f][j].pred = "Helper"]
+         THEN [g EXCEPT !.imps[f][j].pred = ImHelper(g)]
          ELSE [g EXCEPT !.imps[f][j].alias = ImTop(f)]
 
 (* adjacency level: everything reachable from main; cyclic or not *)
@@ -124,7 +125,7 @@ Cyc(N, Styles, Nams, Vars) ==
 (* that the harness can run them as parallel TLC processes; "all" = union. *)
 Shard == IF "C12_SHARD" \in DOMAIN IOEnv THEN IOEnv.C12_SHARD ELSE "all"
 Shards == {"acc1", "acc2", "acc3", "acc4", "acc5", "dbl", "cyc1", "cyc2", "cyc3",
-           "undefined", "unused", "redefinition", "agg", "shadow"}
+           "undefined", "unused", "redefinition", "agg", "shadow", "names", "fun"}
 
 AcceptedN(m) == Acc(1..MaxN, 1..2, 1..3, {m}, Variants)
 Doubled == {Double(x) : x \in Acc(1..MaxN, {1}, 1..3, {1, 2}, {1, 2})}
@@ -133,6 +134,20 @@ ErrBase == Acc(1..MaxN, {1}, 1..3, {1}, {1, 2})
 ErrorsK(k) == UNION {{Inject(x, k, fj[1], fj[2]) : fj \in ImAllImps(x)} : x \in ErrBase}
 Fr(S) == {x \in S : ImInFragment(x)}
 AggGraphs == Acc(1..MaxN, {1}, 1..3, {1, 2}, AggVariants)
+(* every file's private predicate has the same lower-case / underscore /     *)
+(* digit / backtick name (table pools: variants 1 and 7)                      *)
+PrivateNames == {"helper", "_helper", "h2x", "`helper`"}
+NameGraphs == {[x EXCEPT !.hname = h] :
+                 x \in Acc(1..MaxN, {1}, 1..3, {1}, {1, 7}), h \in PrivateNames}
+(* functor calls with a constant argument in every file; FunX: main also      *)
+(* imports Big and Threshold of its first imported file and applies           *)
+(* Made<t> := BigI<t>(ThrI<t>: 5) across the import boundary                  *)
+FunBase == Acc(1..MaxN, {1}, 1..3, {1, 2}, {9, 10})
+FunX(x) == LET t == x.imps[1][1].t
+           IN [x EXCEPT !.imps[1] = @ \o
+                 <<[t |-> t, pred |-> "Big", alias |-> "BigI" \o ToString(t), used |-> TRUE],
+                   [t |-> t, pred |-> "Threshold", alias |-> "ThrI" \o ToString(t), used |-> TRUE]>>]
+FunGraphs == FunBase \cup {FunX(x) : x \in FunBase}
 Shadowed == UNION {{Shadow(x, f) : f \in 2..ImN(x)} :
                      x \in Acc(1..MaxN, {1}, 1..3, {1, 2}, {2, 3})}
 
@@ -146,6 +161,8 @@ GraphsOf(sh) ==
     [] sh \in {"undefined", "unused", "redefinition"} -> Fr(ErrorsK(sh))
     [] sh = "agg" -> AggGraphs
     [] sh = "shadow" -> Fr(Shadowed)
+    [] sh = "names" -> NameGraphs
+    [] sh = "fun" -> Fr(FunGraphs)
 Graphs == IF Shard = "all" THEN UNION {GraphsOf(sh) : sh \in Shards}
           ELSE GraphsOf(Shard)
 
@@ -253,7 +270,8 @@ CaseRec ==
    shapes |-> SetToSeq(ImShapes(g)),
    mods |-> [f \in 1..ImN(g) |-> ImModule(g, f)],
    copies |-> ImCopies(g),
-   flat |-> IF ImExpect(g) = "ok" THEN ImFlatten(g) ELSE [preds |-> <<>>, rec |-> <<>>, makes |-> <<>>],
+   flat |-> IF ImExpect(g) = "ok" THEN ImFlattenText(g) ELSE [preds |-> <<>>, rec |-> <<>>, makes |-> <<>>],
+   main_makes |-> ImCopyModuleMakes(g, 1, TRUE),
    query |-> ImQuery,
    prefixes |-> [f \in 1..ImN(g) |-> parsed[f].prefix]]
 
@@ -293,7 +311,7 @@ Expected(f) ==
         [file |-> f, head |-> MName(ImResolveFP(g, f, lr[i].head)),
          refs |-> {MName(ImResolveFP(g, f, n)) : n \in lr[i].refs}]]
 Count(s, e) == Cardinality({i \in 1..Len(s) : s[i] = e})
-AllDefs == {fp \in (1..ImN(g)) \X ({"Helper", "M", "Val", "Agg"} \cup {ImOwn(f) : f \in 1..ImN(g)}) :
+AllDefs == {fp \in (1..ImN(g)) \X ({ImHelper(g), "M", "Val", "Agg", "Threshold", "Big", "VeryBig"} \cup {ImOwn(f) : f \in 1..ImN(g)}) :
               fp[2] \in ImDefs(g, fp[1])}
 OkIsFlatten ==      \* (the state after Emit differs only in `emitted`)
   (outcome = "ok" /\ ~emitted) =>
